@@ -285,8 +285,11 @@ def job_reject(ctx, k):
     # matrices
     Rs = [rq.R(q) for q in [np.array([1.0, 0, 0, 0]), A.MENU[k], A.MENU[(k + 3) % 8], A.G48()[30], A.G48()[12], A.Gl(A.G120(), k)[17],
                             rq.axang2q([1, 2, 3], math.pi), rq.axang2q([0, 0, 1], 1e-9)]]
+    good = rq.R(A.MENU[(k + 5) % 8])
     routes = [('DCM(R)', lambda M: DCM(M.copy())), ('Quaternion(dcm=)', lambda M: Quaternion(dcm=M.copy())),
-              ('QuaternionArray(DCM=)', lambda M: QuaternionArray(DCM=M.copy()[None]))]
+              ('QuaternionArray(DCM=)', lambda M: QuaternionArray(DCM=M.copy()[None])),
+              ('DCM(stack [M])', lambda M: DCM(M.copy()[None])), ('DCM(stack [good, M, good])', lambda M: DCM(np.array([good, M.copy(), good]))),
+              ('QuaternionArray(DCM=[good, M])', lambda M: QuaternionArray(DCM=np.array([good, M.copy()])))]
 
     def perturbs(eps):
         out = [('scale+', np.eye(3) * (1 + eps)), ('scale-', np.eye(3) * (1 - eps)), ('scale-x', np.diag([1 + eps, 1.0, 1.0]))]
@@ -323,7 +326,7 @@ def job_reject(ctx, k):
                     must_reject(lambda: fn(M), f'{rn}: matrix containing NaN', f'R#{ir} nan@{i}{j} k{k}')
                     ctx.cls('reject:matrix')
             for name, M in (('2x2', np.eye(2)), ('3x4', np.zeros((3, 4))), ('vector', np.ones(9)), ('4x4', np.eye(4))):
-                if rn == 'QuaternionArray(DCM=)':
+                if rn != 'DCM(R)' and rn != 'Quaternion(dcm=)':
                     continue
                 must_reject(lambda: fn(M), f'{rn}: wrong shape', f'shape={name}')
                 ctx.cls('reject:matrix')
